@@ -493,6 +493,7 @@ func randRandom(fl *drv.Flags, rng *rand.Rand, w *chain.TraceWriter) {
 	e := newRandEnv(fl)
 	e.start(w)
 	maxN := int(fl.CfgInt("maxn", 3))
+	target := int64(0) // convergence window: many requests of several blocks falling due at one height
 	for b := 0; b < fl.Len; b++ {
 		begin := randEvent("BeginBlock", "")
 		begin["dt"] = int64(1 + rng.Intn(9))
@@ -547,6 +548,24 @@ func randRandom(fl *drv.Flags, rng *rand.Rand, w *chain.TraceWriter) {
 				}
 			}
 			pending = append(pending, ev)
+		}
+		h := e.last["h"].(int64)
+		if target < h && rng.Intn(6) == 0 {
+			target = h + int64(maxN) + int64(rng.Intn(3))
+		}
+		if target >= h {
+			for _, u := range e.users {
+				if rng.Intn(4) == 0 {
+					continue
+				}
+				ev := randEvent("RequestRandom", u)
+				ev["n"] = target - h
+				if rng.Intn(5) == 0 {
+					ev["oracle"] = true
+					ev["cap"] = e.price
+				}
+				pending = append(pending, ev)
+			}
 		}
 		rng.Shuffle(len(pending), func(i, j int) { pending[i], pending[j] = pending[j], pending[i] })
 		if !e.runBlock(begin, pending, w) {
